@@ -185,11 +185,29 @@ fn parse_response(raw: &[u8]) -> std::io::Result<HttpResponse> {
         })
         .collect();
 
-    Ok(HttpResponse {
+    let response = HttpResponse {
         status,
         headers,
         body,
-    })
+    };
+    // The peer closed the connection; if it had declared a Content-Length the
+    // body must be at least that long, or the response was cut short.
+    if let Some(declared) = response
+        .header("content-length")
+        .and_then(|v| v.parse::<usize>().ok())
+    {
+        if response.body.len() < declared {
+            return Err(std::io::Error::new(
+                std::io::ErrorKind::UnexpectedEof,
+                format!(
+                    "response body cut short: {} of {} bytes",
+                    response.body.len(),
+                    declared
+                ),
+            ));
+        }
+    }
+    Ok(response)
 }
 
 fn invalid(msg: &str) -> std::io::Error {
